@@ -45,6 +45,14 @@ def generate(rng, tier, index):
         m.pop("sigma_e_tier", None)
     else:
         m["sigma_e_max"] = 2.5e-3
+    # detectors read only cells outside the absorbing layers (co-location reaches one cell further): the
+    # reverse pass reconstructs the interior only, a detector inside a layer is outside the statement
+    inner = specgen.inner_region(spec["shape"], spec["faces"])
+    inner = [[lo + (1 if spec["faces"][f"min_{ax}"]["kind"] == "pml" else 0), hi - (1 if spec["faces"][f"max_{ax}"]["kind"] == "pml" else 0)] for (lo, hi), ax in zip(inner, "xyz")]
+    for a in range(3):
+        if inner[a][1] - inner[a][0] < 1:
+            inner[a] = specgen.inner_region(spec["shape"], spec["faces"])[a]
+    spec["detectors"] = [specgen.rand_detector(rng, d["name"], spec["shape"], spec["steps"], inner=inner) for d in spec["detectors"]]
     for s in spec["sources"]:  # make sure something is injected early
         if s.get("switch") and rng.uniform() < 0.5:
             s.pop("switch")
